@@ -10,6 +10,7 @@ CONSTANTS Kinds <- K3
  OnFetchError = "error"
  GenLen = 22
  MaxVer = 2
+ MaxFail = 2
 INVARIANTS Emit
 CONSTRAINT Stop
 CHECK_DEADLOCK FALSE
